@@ -20,7 +20,7 @@ CLAUSE_PREFIX = {"InverseOK": "C02", "Jacobian": "C02", "ClosedForm": "C02", "Or
                  "OneBpSign": "C03", "Scalar_": "C03",
                  "AllDocumented": "C12", "Shapes": "C12", "WallClosed": "C12", "FiniteExcept": "C12", "HyDyPositive": "C12", "NoFoldedCell": "C12",
                  "InputsYaml": "C12", "DxIs": "C09", "PsixyXlow": "C09", "RadialList": "C09", "Rejection_": "C12", "Pair": "C16", "MirrorInts": "C16", "SharedEdge": "C08", "ChiNaNOnOpen": "C08", "Hy": "C05", "QuadraticInNfine": "C05", "PD": "C05", "Total": "C05",
-                 "CurlX": "C07", "CurlY": "C07", "CurlZ": "C07", "BxcvIs": "C07", "TwoForms": "C07", "Stencil": "C07", "SameIntegralCurve": "C04", "RadialParallel": "C04", "TargetOn": "C11", "InsideBetween": "C11", "GuardsOutside": "C11", "PenaltyCases": "C11", "WallIsInput": "C11", "PoloidalOrder": "C10", "PoloidalDistance": "C10", "Nested": "C10", "ZShift": "C06", "JumpIs": "C06", "ShiftAngle": "C06", "ShiftTorsion": "C06", "DxAtFaces": "C09", "ChiDomain": "C06"}
+                 "CurlX": "C07", "CurlY": "C07", "CurlZ": "C07", "BxcvIs": "C07", "TwoForms": "C07", "Stencil": "C07", "SameIntegralCurve": "C04", "RadialParallel": "C04", "TargetOn": "C11", "InsideBetween": "C11", "GuardsOutside": "C11", "PenaltyCases": "C11", "WallIsInput": "C11", "PoloidalOrder": "C10", "PoloidalDistance": "C10", "Nested": "C10", "ZShift": "C06", "JumpIs": "C06", "ShiftAngle": "C06", "ShiftTorsion": "C06", "DxAtFaces": "C09", "ChiDomain": "C06", "ParallelGrid": "C13"}
 
 
 def clause_prop(c):
